@@ -70,6 +70,10 @@ func ParseHash(s string) (Hash, error) {
 // maxpow2 returns k, the maximum power of 2 smaller than n,
 // as well as l = log₂ k (so k = 1<<l).
 func maxpow2(n int64) (k int64, l int) {
+	if n > 1<<62 {
+		// 1<<63 overflows int64, so the loop below would never end.
+		return 1 << 62, 62
+	}
 	l = 0
 	for 1<<uint(l+1) < n {
 		l++
